@@ -52,6 +52,12 @@ MUTANTS = {
             ('hwm-not-updated', 'sim.py', "        self.max_size = max(self.max_size, self.current_size)", "        self.max_size = max(self.max_size, loc)"),
             ('pin-ppo-missing', 'sim.py', "                i0_idx = stems[n.ins[0]] if stems[n.ins[0]] >= 0 else n.ins[0]\n                ref_count[i0_idx] += 1", "                i0_idx = stems[n.ins[0]] if stems[n.ins[0]] >= 0 else n.ins[0]"),
             ('tail-trim-forgets-prev', 'sim.py', "                    del self.chunks[prev]\n                    del self.released[-1]\n                    self.current_size -= chunksize", "                    del self.chunks[prev]\n                    self.current_size -= chunksize")],
+    'C06': [('gpu-capture-le', 'wave_sim.py', "        t = c[line + tidx, vector]\n        if t >= TMAX:\n            if t == TMAX_OVL:\n                ovl = 1\n            break\n        m = -m\n        final ^= 1\n        if t < time:", "        t = c[line + tidx, vector]\n        if t >= TMAX:\n            if t == TMAX_OVL:\n                ovl = 1\n            break\n        m = -m\n        final ^= 1\n        if t <= time:"),
+            ('dataset-mode1-uses-seed', 'wave_sim.py', "            delays = delays[simctl_int[0]]", "            delays = delays[seed]"),
+            ('simctl-lane0', 'wave_sim.py', "nrise, nfall = wave_eval_cpu(op, c, c_locs, c_caps, sim, delays, simctl_int[:, sim], seed)", "nrise, nfall = wave_eval_cpu(op, c, c_locs, c_caps, sim, delays, simctl_int[:, 0], seed)"),
+            ('gpu-ppo-to-ppi', 'wave_sim.py', "    s[0, y, x] = s[2, y, x]\n    s[1, y, x] = time\n    s[2, y, x] = s[8, y, x]", "    s[0, y, x] = s[2, y, x]\n    s[1, y, x] = time\n    s[2, y, x] = s[6, y, x]"),
+            ('strip-alias-caps', 'sim.py', "                self.c_locs[lidx], self.c_caps[lidx] = self.c_locs[stem], self.c_caps[stem]", "                self.c_locs[lidx], self.c_caps[lidx] = self.c_locs[stem], self.c_caps[lidx]"),
+            ('sims-k-off', 'wave_sim.py', "        sims = min(sims or self.sims, self.sims)\n        for op_start, op_stop in zip(self.level_starts, self.level_stops):\n            level_eval_cpu", "        sims = min((sims or self.sims) + 1, self.sims)\n        for op_start, op_stop in zip(self.level_starts, self.level_stops):\n            level_eval_cpu")],
 }
 
 
